@@ -1,14 +1,15 @@
 #!/bin/bash
-# For every kept seed: apply it to /repo, run the quick check of the property it breaks, undo.
+# For every kept seed (optionally only ids starting with $1): apply it to /repo, run the quick
+# check of the property it breaks, undo straight afterwards.
 cd /verif
 git -C /repo diff --quiet || { echo "/repo is dirty"; exit 1; }
-for d in seeded/*/; do
-  id=$(basename $d); prop=${id%%-*}
+for d in seeded/${1}*/; do
+  id=$(basename $d); prop=$(python3 -c "import json,sys; print(json.load(open(sys.argv[1]))['property'])" ${d}meta.json)
   git -C /repo apply /verif/${d}patch.diff || { echo "$id APPLY-FAILED"; continue; }
   out=$(bin/sdbcheck check $prop --no-evidence 2>&1); rc=$?
   git -C /repo checkout -- . 
   n=$(echo "$out" | grep -c "^VIOLATION property=$prop")
   rules=$(echo "$out" | grep -E "^  (VIOLATION|UNDECIDED) " | awk '{print $2}' | cut -d'|' -f1 | sort -u | tr '\n' ',')
-  echo "$id exit=$rc violations=$n rules=$rules"
+  echo "$id prop=$prop exit=$rc violations=$n rules=$rules"
 done
 git -C /repo status --short | head
